@@ -70,8 +70,9 @@ def get_mod_apply_selection_choice(
         removed_nodes = {choice_node}
 
         originating_nodes = list(graph.predecessors(choice_node))
+        marker_start_node = sorted(start_nodes, key=lambda n: str(n))[0]  # Independent of set iteration order
         added_edges = {get_edge_for_type(
-            list(start_nodes)[0], originating_node, EdgeType.INCOMPATIBILITY, choice_node=choice_node)
+            marker_start_node, originating_node, EdgeType.INCOMPATIBILITY, choice_node=choice_node)
             for originating_node in originating_nodes}
 
         return set(), removed_nodes, added_edges
